@@ -5,6 +5,13 @@ import re
 from . import common, rewrite, tlc, parsefam
 from .common import Result, Violation
 
+ALL_BRANCHES = {"assoc.left_child_up", "assoc.right_child_up", "comm.equation", "comm.chain_add", "comm.chain_mul", "comm.swap_add", "comm.swap_mul",
+                "fold.negation_simple", "fold.simple", "fold.simple_var_mult", "fold.chained_right_deep", "fold.chained_right", "fold.chained_right_left",
+                "fold.chained_right_left_left", "fold.chained_left_left_right", "dist.sum_on_left", "dist.sum_on_right", "inverse.negative_denominator", "inverse.plain",
+                "restate.subtract_negative_variable", "restate.subtract_negative_constant", "restate.subtract_term_with_constant", "restate.subtraction",
+                "restate.add_neg_const", "restate.add_neg_const_var", "restate.add_neg_const_var_exp", "varmul.simple", "varmul.chained", "varmul.chained_left_right",
+                "move.const_of_multiply", "move.addition", "factor.simple", "factor.chained_both", "factor.chained_right", "factor.chained_right_left",
+                "factor.chained_left", "factor.chained_left_right"}
 STRUCT = {"vars", "context", "source_modified", "shares_nodes_with_source", "result_not_expression"}
 CLAUSES = {
     "C01": {"value"},
@@ -210,6 +217,14 @@ def run_family(ctx, cases, prop):
                 notes[c] = notes.get(c, 0) + 1
     for dk in ("drift_impl_applicability", "drift_impl_result", "drift_impl_probe", "note_impl_unmodelled"):
         res.extra[dk] = sum(1 for cl in fails.values() if dk in cl)
+    branches = {}
+    for cl in fails.values():
+        for c in cl:
+            if c.startswith("branch:"):
+                branches[c[7:]] = branches.get(c[7:], 0) + 1
+    if branches:
+        res.extra["impl_branches_hit"] = dict(sorted(branches.items()))
+        res.extra["impl_branches_never_hit"] = sorted(ALL_BRANCHES - set(branches))
     drift_examples = [events[eid - 1] for eid, cl in sorted(fails.items()) if any(c.startswith("drift_impl") for c in cl)][:5]
     res.extra["drift_impl_examples"] = [{"text": e["text"], "rule": e["rule"], "opt": e["opt"], "k": e.get("k"), "printed": e.get("printed")} for e in drift_examples]
     res.extra["drift_str_vs_printer_model"] = sum(1 for cl in fails.values() if "drift_printer_model" in cl)
